@@ -950,6 +950,8 @@ var c15Corpus = []string{
 	"\t|", "\t>", "\t-", "? (import)",
 	// further families found by enumerating short strings over YAML-significant tokens (one representative each)
 	"a\x00: ", "a\x7f: ", "a  \n", "\n a", "\n -", "\"\n\n: ", "\u0085: 0x", "\u00a0: - ", "\ufeff: : ", "\u2028:  #",
+	// multi-line text as a file node holds it: indented first line, nested indentation, blank lines, trailing newlines
+	"  server:\n    port: 8080\n", " a\nb", "  x\n  y", " a\n", "a\n b\n", "a\n\nb", "a\n\n", "\n\na", " \n", "a\n  b\n c\n", "\ta\nb", "a:\n  - b\n  - c\n",
 }
 
 // values: the library writes them through %g-like formatting
